@@ -27,7 +27,7 @@ Proof.
   unfold skeletonb. intros H. apply andb_true_iff in H as [H Hcl]. apply andb_true_iff in H as [H Hed]. apply andb_true_iff in H as [Hk Hat].
   rewrite forallb_forall in Hat, Hed, Hcl. constructor.
   - now apply zlist_eqb_sound.
-  - intros x Hx. specialize (Hat x Hx). apply andb_true_iff in Hat as [Hat P]. apply andb_true_iff in Hat as [Hat R]. apply andb_true_iff in Hat as [F A].
+  - intros x Hx. specialize (Hat x Hx). apply andb_true_iff in Hat as [Hat P]. apply andb_true_iff in Hat as [Hat Z']. apply andb_true_iff in Hat as [Hat R]. apply andb_true_iff in Hat as [F A].
     split; [now apply oeqb_sound|]. split; [now apply oeqb_sound|]. split; [now apply oeqb_sound|].
     intros key v Hv Hr Hh. rewrite forallb_forall in P. specialize (P _ (aget_in _ _ _ Hv)). cbn [fst] in P.
     apply orb_true_iff in P as [P|P]; [apply orb_true_iff in P as [P|P]|].
@@ -43,6 +43,7 @@ Proof.
   - intros k1 k2 He. unfold has_edge in He. destruct (gfind k1 m) as [n|] eqn:G; [|discriminate].
     destruct (adj_get k2 (nadj n)) as [d|] eqn:A; [|discriminate]. split; [unfold has_node; now rewrite G|].
     specialize (Hcl n (gfind_In _ _ _ G)). rewrite forallb_forall in Hcl. exact (Hcl _ (adj_get_in_list _ _ _ A)).
+  - intros x Hx. specialize (Hat x Hx). apply andb_true_iff in Hat as [Hat _]. apply andb_true_iff in Hat as [_ Z']. now apply oeqb_sound.
 Qed.
 
 Theorem run_check_sound r :
